@@ -65,6 +65,10 @@ type caseSpec struct {
 	Edges uint64 `json:"edges"`
 	Order []int  `json:"registration_order"`
 	Beh   []int  `json:"behaviours,omitempty"` // per root, index into the behaviour menu; nil = all plain
+	// Cap, when set, replaces the uniform three-set roots by the given roots and expression
+	// sets (capability families, see caps.go); Beh is then unused.
+	Cap  *capSpec `json:"capabilities,omitempty"`
+	capc *capCase // compact form of Cap used by the enumeration
 	// Human readable duplicates (ignored on replay).
 	EdgeList string   `json:"edge_list,omitempty"`
 	BehNames []string `json:"behaviour_names,omitempty"`
@@ -89,6 +93,9 @@ func (cs caseSpec) describe() caseSpec {
 	if len(cs.Beh) == 0 {
 		cs.Beh = nil
 	}
+	if cs.capc != nil {
+		cs.Cap = cs.capc.spec()
+	}
 	return cs
 }
 
@@ -104,14 +111,19 @@ type harness struct {
 	exprs     []*texpr // every expression attached to a set of a registered root
 	dslTokens []string // tokens of errors actually reported through eval.ReportError
 	valTokens []string // tokens of errors actually returned from a Validate callback
-	infra     []string // harness problems (never a violation)
+	// capability families: the errors the case is built to report (execution / validation)
+	expDSLTokens []string
+	expValTokens []string
+	infra        []string // harness problems (never a violation)
 }
 
 // troot implements eval.Root, eval.Preparer, eval.Validator, eval.Finalizer.
 type troot struct {
 	h      *harness
 	name   string
-	class  string // "initial-root" | "registered-root"
+	class  string    // "initial-root" | "registered-root" | "cap-root"
+	caps   uint8     // optional interfaces the registered value implements (capP|capV|capF)
+	self   eval.Root // the value handed to eval.Register
 	deps   []*troot
 	sets   []eval.ExpressionSet
 	valErr bool
@@ -131,7 +143,7 @@ func (r *troot) WalkSets(w eval.SetWalker) {
 func (r *troot) DependsOn() []eval.Root {
 	out := make([]eval.Root, len(r.deps))
 	for i, d := range r.deps {
-		out[i] = d
+		out[i] = d.self
 	}
 	return out
 }
@@ -159,6 +171,9 @@ type texpr struct {
 	root    *troot
 	name    string
 	class   string // subject class used in signatures
+	caps    uint8  // optional interfaces the value placed in the set implements
+	before  []int  // capability families: the symbols that precede the entry in its set
+	where   []int  // capability families: the symbols of the whole set
 	act     func() // extra work done by the DSL function
 	dslErr  bool
 	valErrs int
@@ -205,14 +220,15 @@ func (e *texpr) Validate() error {
 func (e *texpr) Finalize() { e.record(phFinalize) }
 
 func (h *harness) newExpr(r *troot, name, class string) *texpr {
-	e := &texpr{h: h, root: r, name: name, class: class}
+	e := &texpr{h: h, root: r, name: name, class: class, caps: capAll}
 	h.exprs = append(h.exprs, e)
 	return e
 }
 
 // registerDuring registers a brand new root from inside a DSL function.
 func (h *harness) registerDuring(name string, deps []*troot, exprAct func(n *troot) func()) *troot {
-	n := &troot{h: h, name: name, class: "registered-root", deps: deps}
+	n := &troot{h: h, name: name, class: "registered-root", deps: deps, caps: capRoot}
+	n.self = n
 	if err := eval.Register(n); err != nil {
 		h.infra = append(h.infra, "eval.Register during execution failed: "+err.Error())
 		return nil
@@ -230,7 +246,8 @@ func (h *harness) registerDuring(name string, deps []*troot, exprAct func(n *tro
 func (h *harness) build(cs caseSpec) []*troot {
 	roots := make([]*troot, cs.N)
 	for i := range roots {
-		roots[i] = &troot{h: h, name: fmt.Sprintf("r%d", i), class: "initial-root"}
+		roots[i] = &troot{h: h, name: fmt.Sprintf("r%d", i), class: "initial-root", caps: capRoot}
+		roots[i].self = roots[i]
 	}
 	for i, r := range roots {
 		for j := 0; j < cs.N; j++ {
@@ -323,6 +340,14 @@ func (res *result) add(sig, format string, a ...any) {
 // runCase executes one case on the real engine and applies the oracle.
 func runCase(cs caseSpec) *result {
 	res := &result{}
+	if cs.capc == nil && cs.Cap != nil { // replay file
+		cc, err := cs.Cap.compact()
+		if err != nil || len(cc.sets) != cs.N {
+			res.infra = append(res.infra, fmt.Sprintf("bad capability case: %v", err))
+			return res
+		}
+		cs.capc = cc
+	}
 	cyclic := refCyclic(cs.N, cs.Edges)
 	ckind := ""
 	if cyclic {
@@ -332,11 +357,17 @@ func runCase(cs caseSpec) *result {
 		}
 	}
 
+	strict := cs.capc != nil // capability family
 	eval.Reset()
 	h := &harness{}
-	initial := h.build(cs)
+	var initial []*troot
+	if strict {
+		initial = h.buildCaps(cs)
+	} else {
+		initial = h.build(cs)
+	}
 	for _, i := range cs.Order {
-		if err := eval.Register(initial[i]); err != nil {
+		if err := eval.Register(initial[i].self); err != nil {
 			res.infra = append(res.infra, "eval.Register failed: "+err.Error())
 			return res
 		}
@@ -369,6 +400,9 @@ func runCase(cs caseSpec) *result {
 			res.add("callbacks-run-on-cyclic-design kind="+ckind+" first="+phaseName[h.log[0].phase],
 				"%d phase callbacks ran although the dependency graph has a cycle (%s)", len(h.log), ckind)
 		}
+		if strict {
+			res.infra = append(res.infra, "capability families only hold acyclic graphs")
+		}
 		if len(res.fails) > 0 {
 			res.outcome = fmt.Sprintf("n=%d cyclic:VIOLATION", cs.N)
 		} else {
@@ -377,38 +411,77 @@ func runCase(cs caseSpec) *result {
 		return res
 	}
 
-	failedExec := len(h.dslTokens) > 0
-	failedVal := len(h.valTokens) > 0
+	// A design failed a phase when an error was reported in it; in the capability families
+	// also when the case is built to report one (so a failure that the engine skips is not
+	// taken for a valid design).
+	failedExec := len(h.dslTokens) > 0 || len(h.expDSLTokens) > 0
+	failedVal := len(h.valTokens) > 0 || (!failedExec && len(h.expValTokens) > 0)
 
 	// every DSL function executed exactly once, then (on designs that did not fail) every
-	// expression and root prepared, validated, finalized exactly once; finalize never on a
-	// failed design. Only the first missing phase of a subject is reported.
+	// expression and root that has the capability prepared, validated, finalized exactly
+	// once; finalize never on a failed design. Only the first missing phase of a subject is
+	// reported.
+	// When RunDSL returns an error that contains none of the errors reported by (or built
+	// into) the callbacks, the run ended on an error of the engine's own making: that is
+	// reported below (error-returned-on-valid-design / errors-not-returned) and the
+	// Prepare/Validate/Finalize callbacks missing as a consequence are not listed again.
+	foreignErr := false
+	if rerr != nil {
+		foreignErr = true
+		msg := rerr.Error()
+		for _, toks := range [][]string{h.dslTokens, h.valTokens, h.expDSLTokens, h.expValTokens} {
+			for _, t := range toks {
+				if strings.Contains(msg, t) {
+					foreignErr = false
+				}
+			}
+		}
+	}
+
 	type subject struct {
 		class string
 		name  string
 		count *[nPhases]int
-		first int // first phase that applies to the subject
+		caps  uint8
 		root  *troot
+		expr  *texpr
 	}
 	var subjects []subject
 	for _, r := range h.roots {
-		subjects = append(subjects, subject{r.class, r.name, &r.count, phPrepare, r})
+		subjects = append(subjects, subject{r.class, r.name, &r.count, r.caps, r, nil})
 	}
 	for _, e := range h.exprs {
-		subjects = append(subjects, subject{e.class, e.name, &e.count, phDSL, e.root})
+		subjects = append(subjects, subject{e.class, e.name, &e.count, e.caps, e.root, e})
 	}
 	for _, s := range subjects {
 		missingReported := false
-		for ph := s.first; ph < nPhases; ph++ {
+		pos := func(ph int) string { // capability families: where the entry sits in its set
+			if s.expr == nil {
+				return ""
+			}
+			return s.expr.position(ph)
+		}
+		ctx := ""
+		if s.expr != nil && s.expr.where != nil {
+			ctx = fmt.Sprintf(" [capabilities %s, entry %d of set %s]", capString(s.caps), len(s.expr.before), setText(s.expr.where))
+		} else if strict {
+			ctx = fmt.Sprintf(" [root capabilities %s]", capString(s.caps))
+		}
+		for ph := 0; ph < nPhases; ph++ {
 			n := s.count[ph]
+			has := s.caps>>uint(ph)&1 == 1
 			required := false
 			switch ph {
 			case phDSL:
-				required = true
+				required = has
 			case phPrepare, phValidate:
-				required = !failedExec
+				required = has && !failedExec
 			case phFinalize:
-				required = !failedExec && !failedVal
+				required = has && !failedExec && !failedVal
+			}
+			if strict && failedExec && n > 0 && (ph == phPrepare || ph == phValidate) {
+				res.add(fmt.Sprintf("callback-after-failed-execution subject=%s phase=%s", s.class, phaseName[ph]),
+					"%s received %s although the design failed execution%s", s.name, phaseName[ph], ctx)
 			}
 			if ph == phFinalize && (failedExec || failedVal) && n > 0 {
 				why := "validation"
@@ -416,21 +489,21 @@ func runCase(cs caseSpec) *result {
 					why = "execution"
 				}
 				res.add("finalize-on-failed-design failed="+why+" subject="+s.class,
-					"%s was finalized although the design failed %s", s.name, why)
+					"%s was finalized although the design failed %s%s", s.name, why, ctx)
 			}
 			if n > 1 {
-				res.add(fmt.Sprintf("callback-repeated subject=%s phase=%s", s.class, phaseName[ph]),
-					"%s received %s %d times", s.name, phaseName[ph], n)
+				res.add(fmt.Sprintf("callback-repeated subject=%s phase=%s%s", s.class, phaseName[ph], pos(ph)),
+					"%s received %s %d times%s", s.name, phaseName[ph], n, ctx)
 			}
-			if required && n == 0 && !missingReported {
+			if required && n == 0 && !missingReported && !(foreignErr && ph != phDSL) {
 				missingReported = true
 				var later []string
 				for q := ph + 1; q < nPhases; q++ {
 					later = append(later, fmt.Sprintf("%s=%d", phaseName[q], s.count[q]))
 				}
-				res.add(fmt.Sprintf("callback-missing subject=%s phase=%s", s.class, phaseName[ph]),
-					"%s (%s) never received %s (later phases: %s); deps of its root: %s",
-					s.name, s.class, phaseName[ph], strings.Join(later, " "), depsOf(s.root))
+				res.add(fmt.Sprintf("callback-missing subject=%s phase=%s%s", s.class, phaseName[ph], pos(ph)),
+					"%s (%s) never received %s (later phases: %s); deps of its root: %s%s",
+					s.name, s.class, phaseName[ph], strings.Join(later, " "), depsOf(s.root), ctx)
 			}
 		}
 	}
@@ -516,23 +589,52 @@ func runCase(cs caseSpec) *result {
 				"%d of %d %s errors are missing from the error returned by RunDSL: %s; returned: %q", len(missing), len(toks), phase, strings.Join(missing, " "), msg)
 		}
 	}
-	checkTokens("DSL", h.dslTokens)
-	checkTokens("Validate", h.valTokens)
+	checkTokens("DSL", union(h.dslTokens, h.expDSLTokens))
+	if failedExec {
+		checkTokens("Validate", h.valTokens)
+	} else {
+		checkTokens("Validate", union(h.valTokens, h.expValTokens))
+	}
 	if !failedExec && !failedVal && rerr != nil {
 		res.add("error-returned-on-valid-design", "no error was reported in any phase but RunDSL returned %q", rerr)
 	}
 
+	kind := fmt.Sprintf("n=%d dag", cs.N)
+	if strict {
+		kind = fmt.Sprintf("caps n=%d nil-entry=%v", cs.N, cs.capc.hasNil())
+	}
 	switch {
 	case len(res.fails) > 0:
-		res.outcome = fmt.Sprintf("n=%d dag:VIOLATION", cs.N)
+		res.outcome = kind + ":VIOLATION"
 	case failedExec:
-		res.outcome = fmt.Sprintf("n=%d dag:execution-failed-errors-returned", cs.N)
+		res.outcome = kind + ":execution-failed-errors-returned"
 	case failedVal:
-		res.outcome = fmt.Sprintf("n=%d dag:validation-failed-errors-returned", cs.N)
+		res.outcome = kind + ":validation-failed-errors-returned"
 	default:
-		res.outcome = fmt.Sprintf("n=%d dag:all-four-phases", cs.N)
+		res.outcome = kind + ":all-four-phases"
 	}
 	return res
+}
+
+// union: a followed by the elements of b not in a.
+func union(a, b []string) []string {
+	if len(b) == 0 {
+		return a
+	}
+	out := append([]string{}, a...)
+	for _, x := range b {
+		dup := false
+		for _, y := range out {
+			if x == y {
+				dup = true
+				break
+			}
+		}
+		if !dup {
+			out = append(out, x)
+		}
+	}
+	return out
 }
 
 func depsOf(r *troot) string {
@@ -566,7 +668,11 @@ func rootNames(rs []eval.Root) string {
 func checkOrder(res *result, initial []*troot, got []eval.Root) {
 	pos := map[*troot]int{}
 	for i, g := range got {
-		tr, ok := g.(*troot)
+		var tr *troot
+		rt, ok := g.(rooter)
+		if ok {
+			tr = rt.base()
+		}
 		if !ok {
 			res.add("order-membership api=Roots problem=foreign", "Roots() returned a root that was never registered: %s", g.EvalName())
 			continue
